@@ -33,7 +33,7 @@ CHECKS = {
  "C06": _c("Props/C06.v: for each of the 47 identifiers the term regenerated from distance.py evaluates over R to the published closed form (Spec/MetricSpec.v) for every vector length; "
            "registry keys = whitelist; constructor plumbing. Regenerated and re-proved on every run (translator tie).",
            "5/C06", "Coq proof over a fail-closed Python-ast -> Coq translation regenerated every run; translator validation against the real functions",
-           "Trusted: Coq kernel; translator/py2coq.py (validated by eval_ir.py against the real functions on every run); real vs float: 'up to rounding' is not bounded."),
+           "Trusted: Coq kernel; translator/py2coq.py (validated by eval_ir.py against the real functions on every run); real vs float: Props/C06_rounding.v and C06_rounding_shift.v bound 'up to rounding' explicitly (|fl - exact| <= ((1+u)^k(n) - 1) exact for every vector length n) for 8 plain and 19 decorated identifiers in the standard relative-error model (no underflow/overflow), refute such a bound for squared_chord/matusita/hellinger, and leave the log/exp and 1-ratio bodies unbounded."),
  "C07": _c("Props/C07.v: the regenerated decorator program contains no in-place addition, hence (frame theorem over a store of array buffers) a decorated call leaves every caller buffer "
            "unchanged and its value depends only on argument contents; the regenerated store-site table of all code reachable from fit/predict has no caller-rooted store.",
            "5/C07", "Coq proof (frame theorem for effect programs) over regenerated decorator/store tables; dynamic byte-comparison and read-only streams as failing-input search",
@@ -44,14 +44,14 @@ CHECKS = {
            "5/C08", "Coq proofs over Reals (Cauchy-Schwarz, Minkowski, log-sum, case factorisations) about closed forms linked to regenerated code terms",
            "Trusted: as C06. Float-level: Props/C08_robust.v proves, for every monotone sign-preserving rounding, that 44 of the 47 regenerated bodies never meet sqrt of a negative, log of a non-positive or a zero divisor (hassanat and mean_censored_euclidean on non-negative vectors by dedicated lemmas; jaccard not provable in that rounding model); overflow/underflow outside the model."),
  "C12": _c("Props/C12_pdf.v and Props/C12_arcs.v (k+1-slot scan = stable-sort prefix; arcs exact incl. ties, k > n-1, non-fresh subgraphs; per-rank maxima; density bound with fallback): density estimation over R: constant, pdf formula, min/max, affine order-preserving map onto [1, MAX_DENSITY], cost = density - 1, "
-           "eliminate_maxima; the same Gallina terms run bit-exactly in PrimFloat against calculate_pdf; arc creation tied by exact correspondence.",
+           "eliminate_maxima; the same Gallina terms run bit-exactly in PrimFloat against calculate_pdf; arc creation tied by exact correspondence. Props/C12_rounding.v: calculate_pdf under EVERY monotone sign-preserving rounding (min |-> exactly 1, densities >= 1, weakly order preserving, flat case exact; strictness and max |-> MAX_DENSITY shown to be limits of that model).",
            "5/C12", "Coq proof over one NumOps-generic definition (R theorems, PrimFloat bit-exact run); model/impl correspondence",
            _T + "exp values supplied by numpy as a table (no float exp in Coq)."),
  "C13": _c("Props/C13.v: for both clustering flavours (incl. the in-loop plateau insertion of the unsupervised routine) the predecessor map is a forest, every sample reaches exactly one root = its recorded root, "
            "cost/label/cluster-id equations, density gap, cluster ids 0..n_clusters-1 in removal order, label propagation. Tied by exact correspondence on the clustering step and by a PrimFloat "
-           "end-to-end model of the final training stage compared bit-for-bit with fitted KNN-supervised/unsupervised objects; Props/C13_pipeline.v proves every clause for that whole stage over R (hypotheses on the distances only); lifted to any strict total order (C13_anyorder.v).", "5/C13", "Coq model + correspondence; forest invariant proof over the max-heap specification", _T),
+           "end-to-end model of the final training stage compared bit-for-bit with fitted KNN-supervised/unsupervised objects; Props/C13_pipeline.v proves every clause for that whole stage over R (hypotheses on the distances only); lifted to any strict total order (C13_anyorder.v); Props/C13_rounding.v: the same stage with a rounding after every arithmetic operation, for every monotone sign-preserving rounding: same arcs as the exact run, every C13 clause verbatim, density range weakened to [1, 7994].", "5/C13", "Coq model + correspondence; forest invariant proof over the max-heap specification", _T),
  "C14": _c("Props/C14_density.v: query density formula over R with the stored constants; KNN predict model (scan + density + arg-max) run in PrimFloat against both predicts, one case per "
-           "(model, query, batch position). Props/C14_pipeline.v: the rule on the fitted graph over R in terms of the data (k nearest of ALL samples by (distance, index), first arg-max of min(cost, density)); Props/C14_link.v: the term of the theorems is the term the harness runs at PrimFloat.", "5/C14", "Coq proof (R) + PrimFloat correspondence; exhaustive k-nearest oracle", _T),
+           "(model, query, batch position). Props/C14_pipeline.v: the rule on the fitted graph over R in terms of the data (k nearest of ALL samples by (distance, index), first arg-max of min(cost, density)); Props/C14_link.v: the term of the theorems is the term the harness runs at PrimFloat; Props/C14_rounding.v: the query density under every monotone sign-preserving rounding (weakly monotone, min |-> 1, relation to the training map).", "5/C14", "Coq proof (R) + PrimFloat correspondence; exhaustive k-nearest oracle", _T),
  "C15": _c("Props/C15.v: C01's theorems for the semi-supervised competition over labeled+unlabeled nodes, labeled nodes keep their labels, unlabeled get the root prototype's label, and "
            "semi_fit with an empty unlabeled set EQUALS sup_fit (record equality); any strict total order (C15_anyorder.v); over R with metric terms as weights (C15_capstone.v).", "5/C15", "Coq proof (shared with C01) + simulation; model/impl correspondence", _T),
  "C16": _c("k-selection folds (knn_select, cut_select) tied by correspondence to _learn/_best_minimum_cut with criterion values captured by wrapping opf_accuracy/_normalized_cut; "
